@@ -95,7 +95,7 @@ def _contains_key(node, keys):
 def generate(rng, tier="quick"):
     n = rng.randint(4, 20)
     kinds = ["tc_redefine", "tc_redefine_many", "tc_remove", "tc_remove_unknown", "extend_noop", "extend_kw",
-             "extend_tc", "extend_kw_tc", "create_clone", "create_plain", "create_version", "create_default_types",
+             "extend_tc", "extend_kw_tc", "create_clone", "create_plain", "create_partial", "create_version", "create_default_types",
              "create_illegal", "extend_illegal", "instance_types", "fc_new", "fc_subset", "fc_subset_unknown",
              "fc_checks", "cls_checks", "suspend", "resume", "set_meta", "mutate_meta_top", "tc_redefine_same_dict", "extend_version", "instance_future_ref", "instance_future_ref"]
     enabled = [k for k in kinds if rng.random() < 0.75] or kinds
@@ -105,6 +105,11 @@ def generate(rng, tier="quick"):
         op = {"op": k, "a": rng.randrange(1 << 16), "b": rng.randrange(1 << 16), "v": rng.randrange(4)}
         if k in ("extend_kw", "extend_kw_tc", "extend_version"):
             op["kws"] = rng.sample(OVERRIDABLE, rng.randint(1, 2))
+            if rng.random() < 0.15:
+                op["kws"] = ["$ref"]
+        if k == "create_partial":
+            # a small dialect: a keyword table WITHOUT some of the parent's keywords (often without $ref)
+            op["kws"] = rng.sample(OVERRIDABLE, rng.randint(1, 3)) + (["$ref"] if rng.random() < 0.6 else [])
         if k in ("tc_redefine", "tc_redefine_many", "tc_remove"):
             op["names"] = rng.sample(["even", "nonempty", "null", "any"], rng.randint(1, 2))
         if k in ("fc_checks", "cls_checks"):
@@ -325,8 +330,10 @@ def execute(scn):
                         if K in changed_kws or _contains_key({"_": schema[K]}, changed_kws) or \
                                 (K == "$ref" or _contains_key({"_": schema[K]}, ("$ref",))):
                             tainted.add(K)
-                    if "$ref" in tainted:
-                        break        # a top-level $ref IS the whole schema: every error is reported through it
+                    # a top-level $ref stands for the whole schema (its siblings are not evaluated) and referred
+                    # errors carry no "$ref" in their path: when $ref is among the changed keywords only errors
+                    # reported under a SIBLING keyword of the $ref are comparable (none, in this library)
+                    ref_top = "$ref" in schema and "$ref" in tainted
                     if "if" in tainted or "then" in tainted or "else" in tainted:
                         tainted.update(("if", "then", "else"))   # errors of `if` are reported under then / else
 
@@ -336,6 +343,8 @@ def execute(scn):
                         top = sp[0][1] if sp and isinstance(sp[0], list) else None
                         if d["validator"] in [["s", k] for k in changed_kws]:
                             return False       # (`if` and `$ref` do not prepend themselves to the schema path)
+                        if ref_top:
+                            return top in schema and top != "$ref" and top not in tainted
                         return top not in tainted
                     fa = [e for e in a if keep(e)]
                     fb = [e for e in b if keep(e)]
@@ -426,6 +435,15 @@ def execute(scn):
                 parent = pick("class", op["a"])
                 new = V.create(meta_schema={"$id": "urn:dsim:meta:%d" % step}, validators=parent["obj"].VALIDATORS)
                 add("class", new, step, k)
+                ok = True
+            elif k == "create_partial":
+                parent = pick("class", op["a"])
+                P = parent["obj"]
+                table = dict((n, f) for n, f in P.VALIDATORS.items() if n not in op["kws"])
+                new = V.create(meta_schema={"$id": "urn:dsim:meta:%d" % step, "id": "urn:dsim:meta:%d" % step},
+                               validators=table, type_checker=P.TYPE_CHECKER, id_of=P.ID_OF)
+                add("class", new, step, "create_partial-without-" + "+".join(sorted(op["kws"])))
+                probe_count("class_without_some_keywords_created")
                 ok = True
             elif k == "create_version":
                 parent = pick("class", op["a"])
